@@ -48,10 +48,47 @@ def use_repo() -> None:
 # ---- string transport encoding ---------------------------------------------------------------
 
 
-def enc(s: str) -> str:
+def safe_repr(v) -> str:
+    try:
+        return repr(v)
+    except Exception:  # noqa: BLE001  (an object of the code under test whose repr fails)
+        return object.__repr__(v)
+
+
+def enc(s) -> str:
+    """The driver's token for a string.  The renderers are applied to objects the REAL library built (node and child
+    attributes, payloads): whatever such an attribute holds must be rendered, not crash the harness.  A value that is
+    not a `str` is rendered as `!<type>!<code points of its repr>` - a token the model never prints, so it differs
+    from every model rendering and from every rendering of a string."""
+    if not isinstance(s, str):
+        return f"!{type(s).__name__}!{enc(safe_repr(s)) if safe_repr(s) else '-'}"
     if s == "":
         return "-"
     return ",".join(format(ord(c), "x") for c in s)
+
+
+def num(v) -> str:
+    """An integer attribute of an object the real library built, as the drivers print integers.  Anything that is
+    not a plain `int` (None, a bool, a float, a string, an int subclass is fine) or cannot be printed in decimal (beyond
+    CPython's digit limit) is rendered as a `!...` token the model never prints."""
+    if isinstance(v, int) and not isinstance(v, bool):
+        try:
+            return str(int(v))
+        except ValueError:
+            return f"!int!{v.bit_length()}bits"
+    return f"!{type(v).__name__}!{enc(safe_repr(v)) if safe_repr(v) else '-'}"
+
+
+def key_sorted(xs) -> list:
+    """`sorted` for the keys of a dict the real library built: plain ints in order first, anything else after them
+    (by type name and repr) instead of a TypeError on keys that do not compare."""
+    xs = list(xs)
+    try:
+        if all(type(x) is int for x in xs):
+            return sorted(xs)
+    except Exception:  # noqa: BLE001
+        pass
+    return sorted(xs, key=lambda x: (0, x, "") if type(x) is int else (1, 0, type(x).__name__ + safe_repr(x)))
 
 
 def dec(tok: str) -> str:
@@ -60,8 +97,8 @@ def dec(tok: str) -> str:
     return "".join(chr(int(h, 16)) for h in tok.split(","))
 
 
-def has_surrogate(s: str) -> bool:
-    return any(0xD800 <= ord(c) <= 0xDFFF for c in s)
+def has_surrogate(s) -> bool:
+    return isinstance(s, str) and any(0xD800 <= ord(c) <= 0xDFFF for c in s)
 
 
 # ---- the model driver ------------------------------------------------------------------------
